@@ -9,6 +9,7 @@ from .. import lang, vcrun, rx2smt as R
 from ..common import native, SEED
 from specs.build import B
 from specs import numerals
+from . import _b1
 
 LEVEL = "exploration"
 
@@ -120,6 +121,9 @@ def run(rep, tier):
     rep.extra["translator_crosscheck"] = xc
     # argument validation of the template constructor, for ALL integers and every other argument kind (VCs)
     vcrun.run_functions(rep, ["pregex.meta.essentials." + c + ".__init__" for c in ("__Decimal", "Decimal", "PositiveDecimal", "NegativeDecimal", "UnsignedDecimal")], tier)
+    # the chain clauses above rest on the combinators' contracts, which assume the class invariant (contract of __infer_type):
+    # its stand-in runs here too (an affix / sign / format text that is mistyped breaks the composition)
+    _b1.run(rep, tier, ["category", "total"], "syntactic category of every emitted text (the meta patterns are compositions)")
     rep.trusted += ["R3, R4, R6, R7", "rx2smt translator (cross-checked against CPython each run)", "z3 regex theory and the "
                     "derivative-product procedure (must agree)", "specs/numerals.py"]
     rep.assumptions += ["PositiveDecimal and Decimal(include_sign=True): their sign rules are not documented precisely enough to "
